@@ -1,0 +1,142 @@
+# Copyright 2014-2020 The ODL contributors
+#
+# This file is part of ODL.
+#
+# This Source Code Form is subject to the terms of the Mozilla Public License,
+# v. 2.0. If a copy of the MPL was not distributed with this file, You can
+# obtain one at https://mozilla.org/MPL/2.0/.
+
+"""Optional call tracing for external conformance checking.
+
+Tracing is off unless the environment variable ``ODL_VERIF_TRACE`` names a
+directory. When on, `LinearSpace.lincomb` and `Operator.__call__` are wrapped
+(see the bottom of ``odl/set/space.py`` and ``odl/operator/operator.py``) and
+write one JSON line per call to ``<dir>/trace-<pid>.ndjson`` when the call
+returns (also on the error path). With tracing off this module only evaluates
+one boolean at import time.
+"""
+
+from __future__ import print_function, division, absolute_import
+import json
+import os
+
+import numpy as np
+
+__all__ = ()
+
+ENABLED = bool(os.environ.get('ODL_VERIF_TRACE'))
+MAX_VALUES = 64
+
+_state = {'fh': None, 'seq': 0, 'depth': 0}
+
+
+def _out():
+    if _state['fh'] is None:
+        path = os.path.join(os.environ['ODL_VERIF_TRACE'],
+                            'trace-{}.ndjson'.format(os.getpid()))
+        _state['fh'] = open(path, 'a')
+    return _state['fh']
+
+
+def emit(rec):
+    """Write one event; sequence number and current pytest test are added."""
+    _state['seq'] += 1
+    rec['seq'] = _state['seq']
+    rec['depth'] = _state['depth']
+    rec['test'] = os.environ.get('PYTEST_CURRENT_TEST', '')
+    fh = _out()
+    fh.write(json.dumps(rec) + '\n')
+    fh.flush()
+
+
+def values(x):
+    """Small real/complex contents of ``x`` as ``[[re, im], ...]`` or None."""
+    try:
+        arr = np.asarray(x)
+        if arr.dtype.kind not in 'fciub' or arr.size > MAX_VALUES:
+            return None
+        flat = arr.ravel().astype(complex)
+        if not np.all(np.isfinite(flat)):
+            return None
+        return [[float(z.real), float(z.imag)] for z in flat]
+    except Exception:
+        return None
+
+
+def digest(x):
+    """Bytes digest of the contents of ``x`` (None if not array-like)."""
+    try:
+        import hashlib
+        arr = np.ascontiguousarray(np.asarray(x))
+        if arr.dtype.kind not in 'fciub':
+            return None
+        return hashlib.sha1(arr.tobytes()).hexdigest()[:16]
+    except Exception:
+        return None
+
+
+def wrap_lincomb(func):
+    """Tracing wrapper for `LinearSpace.lincomb`."""
+    def lincomb(self, a, x1, b=None, x2=None, out=None):
+        pre = {'x1': values(x1), 'x2': values(x2) if x2 is not None else None}
+        err = None
+        res = None
+        _state['depth'] += 1
+        try:
+            res = func(self, a, x1, b, x2, out)
+            return res
+        except Exception as exc:
+            err = type(exc).__name__
+            raise
+        finally:
+            _state['depth'] -= 1
+            try:
+                emit({'ev': 'lincomb', 'space': type(self).__name__,
+                      'a': values(a), 'b': values(b) if b is not None else None,
+                      'id_x1': id(x1), 'id_x2': id(x2) if x2 is not None else 0,
+                      'id_out': id(out) if out is not None else 0,
+                      'id_res': id(res) if res is not None else 0,
+                      'pre': pre,
+                      'post': {'x1': values(x1),
+                               'x2': values(x2) if x2 is not None else None,
+                               'res': values(res) if res is not None else None},
+                      'err': err})
+            except Exception:
+                pass
+    lincomb.__doc__ = func.__doc__
+    lincomb.__name__ = func.__name__
+    return lincomb
+
+
+def wrap_call(func):
+    """Tracing wrapper for `Operator.__call__`."""
+    def __call__(self, x, out=None, **kwargs):
+        dx = digest(x)
+        err = None
+        res = None
+        _state['depth'] += 1
+        try:
+            res = func(self, x, out=out, **kwargs)
+            return res
+        except Exception as exc:
+            err = type(exc).__name__
+            raise
+        finally:
+            _state['depth'] -= 1
+            try:
+                in_range = None
+                if err is None:
+                    try:
+                        in_range = bool(res in self.range)
+                    except Exception:
+                        in_range = None
+                emit({'ev': 'call', 'cls': type(self).__name__,
+                      'id_x': id(x), 'id_out': id(out) if out is not None else 0,
+                      'id_res': id(res) if res is not None else 0,
+                      'x_digest_pre': dx, 'x_digest_post': digest(x),
+                      'in_range': in_range, 'err': err})
+            except Exception:
+                pass
+    __call__.__doc__ = func.__doc__
+    __call__.__name__ = func.__name__
+    return __call__
